@@ -502,11 +502,12 @@ def check_C16(run):
     # 1. the design: every interleaving of the pure model is race free with sequential results;
     #    each deliberate deviation must be caught (non-vacuity of the invariants)
     vlib.run_tlc(run, "Concurrent", cfg="MC_Concurrent_pure", tag="Concurrent-pure")
-    for v in ("LazyTable", "MemoScore", "SharedNames", "SharedScratch"):
+    variants = ("LazyTable", "MemoScore", "SharedNames", "SharedScratch", "TemplateCache", "PoolDoublePut")
+    for v in variants:
         r = vlib.run_tlc(run, "Concurrent", cfg="MC_Concurrent_" + v, tag="Concurrent-" + v, allow_violation=True)
         if "is violated" not in r["stdout"]:
             raise Infra("negative control %s of Concurrent.tla was not caught by TLC: the invariants are vacuous" % v)
-    run.cov["negative_controls_caught"] = 4
+    run.cov["negative_controls_caught"] = len(variants)
     # 2. schedules from TLC
     res = vlib.run_tlc(run, "MC_Sched", dump=True, workers=2)
     sp = run.path("scheds.ndjson")
